@@ -14,7 +14,8 @@ RULE = ("(a) single operations: every value-returning operator x operand-type co
         "ALL satisfying assignments are enumerated (unit propagation + branching over all of F_p: complete for the "
         "instance in small fields; candidate-set branching in real fields = heuristic). Oracle: in every satisfying "
         "assignment every result wire expression has its honest value (booleans thereby in {0,1}). Counterexamples are "
-        "re-verified by plain evaluation. Non-trivial = the operation allocated >= 1 free variable and the search "
+        "re-verified by plain evaluation. Additionally, with error checking off and integer operands that are not bits: when the recorded "
+        "witness satisfies every emitted constraint, every boolean-typed result in it must be 0 or 1 (an explicit satisfying assignment, no search). Non-trivial = the operation allocated >= 1 free variable and the search "
         "visited >= 2 nodes; distinct by (program digest).")
 
 VALUE_OPS = (refsem.BINARY + ["neg", "abs", "invert", "check_zero", "check_nonzero", "check_positive", "check_positive_n", "ite",
@@ -29,6 +30,19 @@ def result_leaves(m, skip=0):
         for path, leaf in ir.secret_leaves(m.ns, m.vals[i], "v%d" % i):
             out.append((path, leaf.lc.d, m.types[i]))
     return out
+
+
+def bool_leaves(ns, x, path):
+    """(path, LinComb) of every declared boolean reachable from x"""
+    t = ir.classify(ns, x)
+    if t == "B":
+        yield path, x.lc
+    elif t == "A":
+        for i, y in enumerate(x.arr):
+            yield from bool_leaves(ns, y, "%s.arr[%d]" % (path, i))
+    elif t in "LT":
+        for i, y in enumerate(x):
+            yield from bool_leaves(ns, y, "%s[%d]" % (path, i))
 
 
 def k_shaped(asg, p, honest=None, loose_var=None):
@@ -202,6 +216,33 @@ def grid_shard(cells, b, p, pool_extra=1, budget=30000):
                     found[key] = {"case": prog, "key": key,
                                   "msg": ("" if mode == "normal" else "[%s] " % mode) + "%s%r on %s (p=%s, bitlength %d): result %s is %d honestly but the constraints also admit %s with the operands unchanged" % (
                                       name, tuple(vals), ts, p, b, cex["path"], ir.centered(cex["honest"], m.p), cex["other"])}
+        # "results typed boolean are forced to 0 or 1": with error checking off the library computes on integer operands that are
+        # not bits without raising; if the witness recorded then satisfies EVERY constraint, it is a satisfying assignment, and a
+        # boolean-typed result outside {0,1} in it is a result the constraints do not force to be a bit (sound: one explicit
+        # satisfying assignment; no search involved)
+        if any(t == "I" and pos not in op.params for pos, t in enumerate(ts)):
+            small = [[v for v in pl if not isinstance(v, int) or -1 <= v <= 3] for pl in pools]
+            for vals in itertools.product(*small):
+                if not any(t == "I" and v not in (0, 1) for t, v in zip(ts, vals)):
+                    continue
+                args = [(t, "priv" if i % 2 == 0 else "pub", v) for i, (t, v) in enumerate(zip(ts, vals))]
+                prog = opgrid.single(cfg, name, args, "ignore")
+                m = ir.run_program(prog)
+                stats.case([name, ts, [str(v) for v in vals], p, b, "ignore-nonbit"], False, ["op:" + name, "mode:ignore-nonbit",
+                           "status:" + ("raised" if m.raised is not None else "ran")], sample_cap=1)
+                if m.raised is not None:
+                    continue
+                snap = m.ns.rec.snapshot()
+                if r1cs.evaluate(snap):
+                    continue
+                for i in range(len(args), len(m.vals)):
+                    for path, leaf in bool_leaves(m.ns, m.vals[i], "v%d" % i):
+                        val = r1cs.lc_value(leaf.lc.d, m.ns.rec.vals, m.ns.rec.P) % m.ns.rec.P
+                        key = "%s.%s.boolean-result-not-a-bit" % (name, ts)
+                        if val not in (0, 1) and key not in found:
+                            found[key] = {"case": dict(prog, nonbit=True), "key": key,
+                                          "msg": "%s%r on %s (p=%s): every emitted constraint is satisfied by an assignment in which the boolean-typed result %s is %d" % (
+                                              name, tuple(vals), ts, p, path, ir.centered(val, m.ns.rec.P))}
     stats.violations = list(found.values())
     return stats
 
@@ -350,6 +391,15 @@ def replay(case):
         return history_case(case["cfg"], stmts[-1][1], args)[1]
     m = ir.run_program(case)
     if m.raised is not None:
+        return None
+    if case.get("nonbit"):
+        if r1cs.evaluate(m.ns.rec.snapshot()):
+            return None
+        for i in range(len(m.vals)):
+            for path, leaf in bool_leaves(m.ns, m.vals[i], "v%d" % i):
+                val = r1cs.lc_value(leaf.lc.d, m.ns.rec.vals, m.ns.rec.P) % m.ns.rec.P
+                if val not in (0, 1):
+                    return "every emitted constraint is satisfied by an assignment in which the boolean-typed result %s is %d" % (path, ir.centered(val, m.ns.rec.P))
         return None
     status, nodes, cex = analyse(m, 0, budget=200000, candidates=lambda v: cand_real(m, v))
     if cex is None:
